@@ -778,6 +778,9 @@ func (c *Ctx) wf(v *Val) *Val {
 			c.assumeAlways(and(app("<=", "0", app("slen", v.Term)), app("<=", "0", app("soff", v.Term)),
 				app("<=", app("slen", v.Term), maxObjSize)))
 		}
+	case *types.Interface:
+		// the nil interface value is unique: no dynamic type, no payload
+		c.assumeAlways(implies(eq(app("itag", v.Term), "0"), eq(app("ival", v.Term), "0")))
 	case *types.Pointer, *types.Map:
 		c.assumeAlways(app("<=", "0", v.Term))
 		if rtyped(v.T) {
